@@ -387,10 +387,16 @@ def write_replay(prop, engine, finding, seed, extra=None):
     os.makedirs(REPLAY_DIR, exist_ok=True)
     h = hashlib.sha1(("\n".join(finding.case.lines) + finding.kind).encode()).hexdigest()[:10]
     path = os.path.join(REPLAY_DIR, "%s_%s_%s.json" % (prop, finding.kind, h))
+    def clip(recs):
+        # records are evidence for the reader, the replay is the case: keep huge ones short
+        if recs is None:
+            return None
+        return [r if len(r) <= 20000 else r[:20000] + "...[%d more characters]" % (len(r) - 20000) for r in recs]
+
     doc = {
         "property": prop, "engine": engine, "kind": finding.kind, "seed": seed,
-        "case": finding.case.lines, "failing_op_index": finding.idx, "detail": finding.detail,
-        "implementation_records": finding.impl, "model_records": finding.model, "spec_records": finding.spec,
+        "case": finding.case.lines, "failing_op_index": finding.idx, "detail": str(finding.detail)[:20000],
+        "implementation_records": clip(finding.impl), "model_records": clip(finding.model), "spec_records": clip(finding.spec),
         "broken": finding.name, "signature": finding.signature,
         "how_to_replay": "python3 check.py %s --replay %s" % (prop, path),
     }
